@@ -279,4 +279,256 @@ Proof.
       try (destruct (Nat.eqb_spec o o'); specialize (H3 o'); lia); try (specialize (H3 o'); lia).
 Qed.
 
+Lemma hbp_vc_all k : k <= length tr -> hbp_vc_inv k.
+Proof. induction k as [|k IH]; intros H; [apply hbp_vc_0|apply hbp_vc_S; [lia|apply IH; lia]]. Qed.
+
+Lemma hbp_ep_eq i u e : nth_error tr i = Some (u, e) -> hbp_ep i = rc_C (hbp_st i) u u.
+Proof. intros H. unfold hbp_ep. rewrite H. reflexivity. Qed.
+
+Lemma hbp_ep_pos i u e : nth_error tr i = Some (u, e) -> 1 <= hbp_ep i.
+Proof.
+  intros H. rewrite (hbp_ep_eq _ _ _ H).
+  assert (Hi : i < length tr) by (apply nth_error_Some; congruence).
+  pose proof (vi_ltL _ (hbp_vc_all i ltac:(lia)) 0 u). lia.
+Qed.
+
+(* clock comparison succeeds -> ordered; fails -> other thread and unordered *)
+Lemma hbp_le_hb k t e i u ei :
+  hbp_vc_inv k -> nth_error tr k = Some (t, e) -> i < k -> nth_error tr i = Some (u, ei) ->
+  hbp_ep i <= rc_C (hbp_st k) t u -> hb_hb tr i k.
+Proof.
+  intros I Ek Hi Hn Hle. apply (hbp_known_hb _ _ _ _ Ek). apply (vi_C _ I t i u ei Hn Hi). exact Hle.
+Qed.
+
+Lemma hbp_gt_nhb k t e i u ei :
+  hbp_vc_inv k -> nth_error tr k = Some (t, e) -> (forall o, ~ hb_is_acq e o) ->
+  i < k -> nth_error tr i = Some (u, ei) ->
+  rc_C (hbp_st k) t u < hbp_ep i -> u <> t /\ ~ hb_hb tr i k.
+Proof.
+  intros I Ek Hna Hi Hn Hlt. split.
+  - intros ->. assert (H : hbp_knows k t i).
+    { exists i. split; [exact Hi|]. split; [exists ei; exact Hn|left; reflexivity]. }
+    apply (vi_C _ I t i t ei Hn Hi) in H. lia.
+  - intros H. apply (hbp_hb_known _ _ _ _ Ek Hna) in H. apply (vi_C _ I t i u ei Hn Hi) in H. lia.
+Qed.
+
+(* ------------------------------------------------------------------ access history *)
+Record hbp_ah_inv (k : nat) : Prop := {
+  ai_W : forall x, rc_Wc (hbp_st k) x <> 0 ->
+           exists w, w < k /\ nth_error tr w = Some (rc_Wt (hbp_st k) x, RWrite x)
+                     /\ hbp_ep w = rc_Wc (hbp_st k) x;
+  ai_R : forall x u, rc_R (hbp_st k) x u <> 0 ->
+           exists r, r < k /\ nth_error tr r = Some (u, RRead x)
+                     /\ hbp_ep r = rc_R (hbp_st k) x u;
+  ai_Wall : rc_raced (hbp_st k) = false ->
+            forall i u x, i < k -> nth_error tr i = Some (u, RWrite x) ->
+              exists w, w < k /\ nth_error tr w = Some (rc_Wt (hbp_st k) x, RWrite x)
+                        /\ hbp_ep w = rc_Wc (hbp_st k) x /\ (i = w \/ hb_hb tr i w);
+  ai_Rall : forall i u x, i < k -> nth_error tr i = Some (u, RRead x) ->
+              exists r, r < k /\ nth_error tr r = Some (u, RRead x)
+                        /\ hbp_ep r = rc_R (hbp_st k) x u /\ (i = r \/ hb_hb tr i r)
+}.
+
+Lemma hbp_ah_0 : hbp_ah_inv 0.
+Proof.
+  constructor.
+  - intros x H. rewrite hbp_st_0 in H. cbn in H. congruence.
+  - intros x u H. rewrite hbp_st_0 in H. cbn in H. congruence.
+  - intros; lia.
+  - intros; lia.
+Qed.
+
+Lemma hbp_ah_S k : k < length tr -> hbp_vc_inv k -> hbp_ah_inv k -> hbp_ah_inv (S k).
+Proof.
+  intros Hk V [IW IR IWall IRall].
+  destruct (nth_error tr k) as [[t e]|] eqn:Ek; [|apply nth_error_None in Ek; lia].
+  assert (Hepk : hbp_ep k = rc_C (hbp_st k) t t) by (apply (hbp_ep_eq _ _ _ Ek)).
+  pose proof (hbp_st_S _ _ _ Ek) as Hst.
+  assert (Wk : forall (P : nat -> Prop), (exists w, w < k /\ P w) -> exists w, w < S k /\ P w).
+  { intros P [w [Hw H]]. exists w. split; [lia|exact H]. }
+  destruct e as [x0|x0|o|o|o].
+  - (* read *)
+    constructor; rewrite Hst; cbn [rc_step rc_Wt rc_Wc rc_R rc_raced].
+    + intros x H. apply Wk. apply IW. exact H.
+    + intros x u. unfold rc_upd.
+      destruct (Nat.eqb_spec x x0) as [->|Hx]; [destruct (Nat.eqb_spec u t) as [->|Hu]|].
+      * intros _. exists k. split; [lia|]. split; [exact Ek|exact Hepk].
+      * intros H. apply Wk. apply IR. exact H.
+      * intros H. apply Wk. apply IR. exact H.
+    + intros Hr i u x Hi Hn. apply orb_false_elim in Hr. destruct Hr as [Hr _].
+      assert (i <> k) by (intros ->; rewrite Ek in Hn; discriminate).
+      apply Wk. apply (IWall Hr i u x); [lia|exact Hn].
+    + intros i u x Hi Hn. unfold rc_upd.
+      destruct (Nat.eq_dec i k) as [->|Hne].
+      * rewrite Ek in Hn. inversion Hn; subst u x. rewrite !Nat.eqb_refl.
+        exists k. split; [lia|]. split; [exact Ek|]. split; [exact Hepk|left; reflexivity].
+      * destruct (Nat.eqb_spec x x0) as [->|Hx]; [destruct (Nat.eqb_spec u t) as [->|Hu]|].
+        -- exists k. split; [lia|]. split; [exact Ek|]. split; [exact Hepk|right].
+           apply t_step. left. split; [lia|]. exists t, (RRead x0), (RRead x0). split; assumption.
+        -- apply Wk. apply (IRall i u x0); [lia|exact Hn].
+        -- apply Wk. apply (IRall i u x); [lia|exact Hn].
+  - (* write *)
+    constructor; rewrite Hst; cbn [rc_step rc_Wt rc_Wc rc_R rc_raced].
+    + intros x. unfold rc_upd. destruct (Nat.eqb_spec x x0) as [->|Hx].
+      * intros _. exists k. split; [lia|]. split; [exact Ek|exact Hepk].
+      * intros H. apply Wk. apply IW. exact H.
+    + intros x u H. apply Wk. apply IR. exact H.
+    + intros Hr i u x Hi Hn. apply orb_false_elim in Hr. destruct Hr as [Hr Hck].
+      apply negb_false_iff, andb_true_iff in Hck. destruct Hck as [Hokw _].
+      apply Nat.leb_le in Hokw. unfold rc_upd.
+      destruct (Nat.eq_dec i k) as [->|Hne].
+      * rewrite Ek in Hn. inversion Hn; subst u x. rewrite !Nat.eqb_refl.
+        exists k. split; [lia|]. split; [exact Ek|]. split; [exact Hepk|left; reflexivity].
+      * destruct (Nat.eqb_spec x x0) as [->|Hx].
+        -- exists k. split; [lia|]. split; [exact Ek|]. split; [exact Hepk|right].
+           destruct (IWall Hr i u x0 ltac:(lia) Hn) as [w [Hw [Hwn [Hwe Hiw]]]].
+           assert (Hwk : hb_hb tr w k).
+           { apply (hbp_le_hb k t (RWrite x0) w _ _ V Ek Hw Hwn). rewrite Hwe. exact Hokw. }
+           destruct Hiw as [->|Hiw]; [exact Hwk|eapply t_trans; eassumption].
+        -- apply Wk. apply (IWall Hr i u x); [lia|exact Hn].
+    + intros i u x Hi Hn.
+      assert (i <> k) by (intros ->; rewrite Ek in Hn; discriminate).
+      apply Wk. apply (IRall i u x); [lia|exact Hn].
+  - constructor; rewrite Hst; cbn [rc_step rc_Wt rc_Wc rc_R rc_raced].
+    + intros x H. apply Wk. apply IW. exact H.
+    + intros x u H. apply Wk. apply IR. exact H.
+    + intros Hr i u x Hi Hn. assert (i <> k) by (intros ->; rewrite Ek in Hn; discriminate).
+      apply Wk. apply (IWall Hr i u x); [lia|exact Hn].
+    + intros i u x Hi Hn. assert (i <> k) by (intros ->; rewrite Ek in Hn; discriminate).
+      apply Wk. apply (IRall i u x); [lia|exact Hn].
+  - constructor; rewrite Hst; cbn [rc_step rc_Wt rc_Wc rc_R rc_raced].
+    + intros x H. apply Wk. apply IW. exact H.
+    + intros x u H. apply Wk. apply IR. exact H.
+    + intros Hr i u x Hi Hn. assert (i <> k) by (intros ->; rewrite Ek in Hn; discriminate).
+      apply Wk. apply (IWall Hr i u x); [lia|exact Hn].
+    + intros i u x Hi Hn. assert (i <> k) by (intros ->; rewrite Ek in Hn; discriminate).
+      apply Wk. apply (IRall i u x); [lia|exact Hn].
+  - constructor; rewrite Hst; cbn [rc_step rc_Wt rc_Wc rc_R rc_raced].
+    + intros x H. apply Wk. apply IW. exact H.
+    + intros x u H. apply Wk. apply IR. exact H.
+    + intros Hr i u x Hi Hn. assert (i <> k) by (intros ->; rewrite Ek in Hn; discriminate).
+      apply Wk. apply (IWall Hr i u x); [lia|exact Hn].
+    + intros i u x Hi Hn. assert (i <> k) by (intros ->; rewrite Ek in Hn; discriminate).
+      apply Wk. apply (IRall i u x); [lia|exact Hn].
+Qed.
+
+Lemma hbp_ah_all k : k <= length tr -> hbp_ah_inv k.
+Proof.
+  induction k as [|k IH]; intros H; [apply hbp_ah_0|].
+  apply hbp_ah_S; [lia|apply hbp_vc_all; lia|apply IH; lia].
+Qed.
+
+(* ------------------------------------------------------------------ the flag *)
+Lemma hbp_raced_sticky l : forall m, rc_raced m = true ->
+  rc_raced (fold_left (fun m p => rc_step n m (fst p) (snd p)) l m) = true.
+Proof.
+  induction l as [|p l IH]; intros m H; cbn [fold_left]; [exact H|].
+  apply IH. rewrite rc_step_raced, H. reflexivity.
+Qed.
+
+Lemma hbp_raced_later k : rc_raced (hbp_st k) = true -> rc_raced (rc_run n tr) = true.
+Proof.
+  intros H. unfold rc_run. rewrite <- (firstn_skipn k tr), fold_left_app.
+  apply hbp_raced_sticky. exact H.
+Qed.
+
+Lemma hbp_flag_step k : k <= length tr -> rc_raced (hbp_st k) = true ->
+  exists j t e, j < k /\ nth_error tr j = Some (t, e) /\ hbp_check n (hbp_st j) t e = false.
+Proof.
+  induction k as [|k IH]; intros Hk H; [rewrite hbp_st_0 in H; discriminate|].
+  destruct (nth_error tr k) as [[t e]|] eqn:Ek; [|apply nth_error_None in Ek; lia].
+  rewrite (hbp_st_S _ _ _ Ek), rc_step_raced in H. apply orb_true_iff in H. destruct H as [H|H].
+  - destruct (IH ltac:(lia) H) as [j [t' [e' [Hj H']]]]. exists j, t', e'. split; [lia|exact H'].
+  - exists k, t, e. split; [lia|]. split; [exact Ek|]. apply negb_true_iff. exact H.
+Qed.
+
+Lemma hbp_forallb_false {A} (f : A -> bool) l :
+  forallb f l = false -> exists a, In a l /\ f a = false.
+Proof.
+  induction l as [|a l IH]; cbn; [discriminate|]. intros H.
+  destruct (f a) eqn:E.
+  - destruct (IH H) as [b [Hb Hf]]. exists b. split; [right; exact Hb|exact Hf].
+  - exists a. split; [left; reflexivity|exact E].
+Qed.
+
+(* ------------------------------------------------------------------ SOUNDNESS *)
+Theorem hbp_sound : rc_raced (rc_run n tr) = true -> hb_race tr.
+Proof.
+  intros H. rewrite <- hbp_st_all in H.
+  destruct (hbp_flag_step _ (le_n _) H) as [j [t [e [Hj [Ej Hck]]]]].
+  pose proof (hbp_vc_all j ltac:(lia)) as V. pose proof (hbp_ah_all j ltac:(lia)) as [IW IR _ _].
+  assert (Hlast : forall x, rc_C (hbp_st j) t (rc_Wt (hbp_st j) x) < rc_Wc (hbp_st j) x ->
+                   (forall o, ~ hb_is_acq e o) -> hb_is_access e x -> hb_race tr).
+  { intros x Hlt Hna Hacc. destruct (IW x ltac:(lia)) as [w [Hw [Hwn Hwe]]].
+    destruct (hbp_gt_nhb j t e w _ _ V Ej Hna Hw Hwn ltac:(lia)) as [Hne Hnhb].
+    exists w, j. split; [exact Hw|]. split; [exact Hj|]. split; [|exact Hnhb].
+    exists (rc_Wt (hbp_st j) x), (RWrite x), t, e, x.
+    repeat split; try assumption; try reflexivity. left. reflexivity. }
+  destruct e as [x|x|o|o|o]; cbn [hbp_check] in Hck; try discriminate.
+  - apply Nat.leb_gt in Hck. apply (Hlast x Hck); [intros o []|reflexivity].
+  - apply andb_false_iff in Hck. destruct Hck as [Hck|Hck].
+    + apply Nat.leb_gt in Hck. apply (Hlast x Hck); [intros o []|reflexivity].
+    + apply hbp_forallb_false in Hck. destruct Hck as [u [_ Hu]]. apply Nat.leb_gt in Hu.
+      destruct (IR x u ltac:(lia)) as [r [Hr [Hrn Hre]]].
+      destruct (hbp_gt_nhb j t (RWrite x) r _ _ V Ej ltac:(intros o []) Hr Hrn ltac:(lia)) as [Hne Hnhb].
+      exists r, j. split; [exact Hr|]. split; [exact Hj|]. split; [|exact Hnhb].
+      exists u, (RRead x), t, (RWrite x), x.
+      repeat split; try assumption; try reflexivity. right. reflexivity.
+Qed.
+
+(* ------------------------------------------------------------------ COMPLETENESS *)
+(* no flag -> every conflicting pair is ordered by happens-before *)
+Theorem hbp_norace_ordered :
+  hb_wf n tr -> rc_raced (rc_run n tr) = false ->
+  forall i j, i < j -> j < length tr -> hb_conflict tr i j -> hb_hb tr i j.
+Proof.
+  intros Hwf Hnr i j Hij Hj [ti [ei [tj [ej [x [Ei [Ej [Hne [Ai [Aj Hw]]]]]]]]]].
+  assert (Hr : rc_raced (hbp_st (S j)) = false).
+  { destruct (rc_raced (hbp_st (S j))) eqn:E; [|reflexivity].
+    apply hbp_raced_later in E. congruence. }
+  rewrite (hbp_st_S _ _ _ Ej), rc_step_raced in Hr. apply orb_false_elim in Hr.
+  destruct Hr as [Hr Hck]. apply negb_false_iff in Hck.
+  pose proof (hbp_vc_all j ltac:(lia)) as V. pose proof (hbp_ah_all j ltac:(lia)) as [_ _ IWall IRall].
+  assert (Hti : ti < n).
+  { unfold hb_wf in Hwf. rewrite Forall_forall in Hwf. apply (Hwf (ti, ei)).
+    eapply nth_error_In. exact Ei. }
+  assert (Hfromw : ei = RWrite x ->
+                   rc_Wc (hbp_st j) x <= rc_C (hbp_st j) tj (rc_Wt (hbp_st j) x) -> hb_hb tr i j).
+  { intros -> Hokw. destruct (IWall Hr i ti x Hij Ei) as [w [Hw' [Hwn [Hwe Hiw]]]].
+    assert (Hwj : hb_hb tr w j).
+    { apply (hbp_le_hb j tj ej w _ _ V Ej Hw' Hwn). rewrite Hwe. exact Hokw. }
+    destruct Hiw as [->|Hiw]; [exact Hwj|eapply t_trans; eassumption]. }
+  destruct ei as [xi|xi|o|o|o]; cbn [hb_is_access] in Ai; try contradiction; subst xi;
+    destruct ej as [xj|xj|o|o|o]; cbn [hb_is_access] in Aj; try contradiction; subst xj;
+    cbn [hbp_check] in Hck.
+  - (* read, read *) destruct Hw as [[]|[]].
+  - (* read, write *)
+    apply andb_true_iff in Hck. destruct Hck as [_ Hokr].
+    rewrite forallb_forall in Hokr. specialize (Hokr ti). rewrite in_seq in Hokr.
+    specialize (Hokr ltac:(lia)). apply Nat.leb_le in Hokr.
+    destruct (IRall i ti x Hij Ei) as [r [Hr' [Hrn [Hre Hir]]]].
+    assert (Hrj : hb_hb tr r j).
+    { apply (hbp_le_hb j tj (RWrite x) r _ _ V Ej Hr' Hrn). rewrite Hre. exact Hokr. }
+    destruct Hir as [->|Hir]; [exact Hrj|eapply t_trans; eassumption].
+  - (* write, read *) apply Hfromw; [reflexivity|]. apply Nat.leb_le. exact Hck.
+  - (* write, write *)
+    apply andb_true_iff in Hck. destruct Hck as [Hokw _].
+    apply Hfromw; [reflexivity|]. apply Nat.leb_le. exact Hokw.
+Qed.
+
+Theorem hbp_complete : hb_wf n tr -> hb_race tr -> rc_raced (rc_run n tr) = true.
+Proof.
+  intros Hwf [i [j [Hij [Hj [Hc Hn]]]]].
+  destruct (rc_raced (rc_run n tr)) eqn:E; [reflexivity|].
+  exfalso. apply Hn. apply hbp_norace_ordered; assumption.
+Qed.
+
+Theorem hbp_agree : hb_wf n tr -> (rc_raced (rc_run n tr) = false <-> ~ hb_race tr).
+Proof.
+  intros Hwf. split.
+  - intros E H. apply (hbp_complete Hwf) in H. congruence.
+  - intros H. destruct (rc_raced (rc_run n tr)) eqn:E; [|reflexivity].
+    exfalso. apply H. apply hbp_sound. exact E.
+Qed.
+
 End HB.
